@@ -207,23 +207,18 @@ func (tw *TimingWheel) moveTask(task baseEntry) {
 		return
 	}
 
+	// the position and circle are relative to the current ticked position,
+	// not to the slot the timer currently sits in, so always re-insert the
+	// timer instead of adjusting the old entry in place.
 	pos, circle := tw.getPositionAndCircle(task.delay)
-	if pos >= timer.pos {
-		timer.item.circle = circle
-		timer.item.diff = pos - timer.pos
-	} else if circle > 0 {
-		circle--
-		timer.item.circle = circle
-		timer.item.diff = tw.numSlots + pos - timer.pos
-	} else {
-		timer.item.removed = true
-		newItem := &timingEntry{
-			baseEntry: task,
-			value:     timer.item.value,
-		}
-		tw.slots[pos].PushBack(newItem)
-		tw.setTimerPosition(pos, newItem)
+	timer.item.removed = true
+	newItem := &timingEntry{
+		baseEntry: task,
+		value:     timer.item.value,
+		circle:    circle,
 	}
+	tw.slots[pos].PushBack(newItem)
+	tw.setTimerPosition(pos, newItem)
 }
 
 func (tw *TimingWheel) onTick() {
